@@ -290,4 +290,15 @@ def gen_config_ast(rng):
             rules.append({"k": "CcXor" if r < 0.3 else "CcAny", "ch": ch, "default": dflt, "id": g.fresh()})
         else:
             rules.append(g.prop(rng.randint(0, 1)))
+    if rng.random() < 0.3:
+        # an item that is simply required: a bare atom as a direct child of the configurator (a base item), some of
+        # them occurring nowhere else in the model
+        used = {l["id"] for r_ in rules for l in _ast_leaves(r_)}
+        nm = rng.choice([n for n in names if n not in used] or names + ["base"])
+        rules.insert(rng.randrange(len(rules) + 1), {"k": "str", "id": nm} if rng.random() < 0.6 else {"k": "var", "id": nm, "b": [0, 1]})
     return {"k": "Stingy", "ch": rules, "id": "cfg" if rng.random() < 0.5 else None}
+
+def _ast_leaves(a):
+    if a["k"] in ("str", "var"):
+        return [a]
+    return [l for c in a.get("ch", []) for l in _ast_leaves(c)]
